@@ -172,6 +172,11 @@ func pkgLog(log, pkg string) string {
 
 func (f *farm) process(files []FileDef, mode string, plan map[string]*enumPlan) []pkgResult {
 	res := make([]pkgResult, len(files))
+	t0 := time.Now()
+	lap := func(what string) {
+		fmt.Fprintf(os.Stderr, "genumfarm: %-28s %6.1fs\n", what, time.Since(t0).Seconds())
+		t0 = time.Now()
+	}
 	// 1. sources
 	for i := range files {
 		fd := &files[i]
@@ -179,14 +184,14 @@ func (f *farm) process(files []FileDef, mode string, plan map[string]*enumPlan) 
 		must(os.MkdirAll(dir, 0o755))
 		fd.Source = render(fd)
 		must(os.WriteFile(filepath.Join(dir, "defs.go"), []byte(fd.Source), 0o644))
-		if fd.Traits {
+		if fd.uses("pkg.") {
 			must(os.WriteFile(filepath.Join(dir, "aux.go"), []byte(auxSource(fd.Pkg)), 0o644))
 		}
 	}
 	// 2. auxiliary enums (trait types that bring their own unmarshalers) are generated first
 	parallel(len(files), 16, func(i int) {
 		fd := &files[i]
-		if !fd.Traits {
+		if !fd.uses("pkg.Aux") {
 			return
 		}
 		dir := filepath.Join(f.dir, fd.Pkg)
@@ -196,6 +201,7 @@ func (f *farm) process(files []FileDef, mode string, plan map[string]*enumPlan) 
 			os.Exit(3)
 		}
 	})
+	lap("auxiliary enums")
 	// 3. the CLI under test
 	parallel(len(files), 16, func(i int) {
 		fd := &files[i]
@@ -212,6 +218,7 @@ func (f *farm) process(files []FileDef, mode string, plan map[string]*enumPlan) 
 			os.Remove(filepath.Join(dir, "defs.genum.go"))
 		}
 	})
+	lap("genum CLI runs")
 	// 4. compile the generated packages as they are (attributes compile errors to the generator's output)
 	var okPkgs []string
 	idx := map[string]int{}
@@ -244,6 +251,7 @@ func (f *farm) process(files []FileDef, mode string, plan map[string]*enumPlan) 
 		}
 		okPkgs = next
 	}
+	lap("go build of the outputs")
 	// 5. observers
 	var mainImports, mainCalls []string
 	for i := range files {
@@ -270,12 +278,14 @@ func (f *farm) process(files []FileDef, mode string, plan map[string]*enumPlan) 
 			fmt.Fprintln(os.Stderr, "genumfarm: building the observer failed (harness defect):\n"+tail(out, 4000))
 			os.Exit(3)
 		}
+		lap("go build of the observer")
 		outPath := filepath.Join(f.work, "dump.jsonl")
 		out, err = f.run(f.work, 15*time.Minute, bin, planPath, outPath)
 		if err != nil {
 			fmt.Fprintln(os.Stderr, "genumfarm: observer run failed:\n"+tail(out, 4000))
 			os.Exit(3)
 		}
+		lap("observer run")
 		data, err := os.ReadFile(outPath)
 		must(err)
 		for _, line := range strings.Split(string(data), "\n") {
